@@ -633,6 +633,13 @@ func execBatch(sc *Scenario, env *Env) *Result {
 			res.WallMS = nowMS(t0)
 			return res
 		}
+		if refs[i].crashed == "run returned without a result" && (sc.Prop == "C11" || sc.Prop == "C03") {
+			// the run function came back but never delivered a result: a dispatcher would wait for it forever
+			res.Violations = append(res.Violations, Violation{Prop: sc.Prop, Oracle: "termination", Class: "run-ends-without-delivering-a-result", Detail: fmt.Sprintf("line %q run alone returned without sending its result (neither success nor an error of its own)", sc.lineText(i)), Line: fmt.Sprint(i)})
+			res.Status = "violation"
+			res.WallMS = nowMS(t0)
+			return res
+		}
 		if refs[i].crashed != "" {
 			res.Status, res.Note = "crash", "reference run of line "+fmt.Sprint(i)+" panicked: "+shortPanic(refs[i].crashed)
 			res.WallMS = nowMS(t0)
